@@ -24,5 +24,7 @@ def run(chk, ix, tier):
     rules_location.check_line_expansion(chk, ix)
     rules_location.check_build_feature(chk, ix)
     rules_location.check_add_location_and_clear(chk, ix)
-    for r, n in (("Q1", 6), ("Q3", 8), ("Q4", 6), ("Q5", 3), ("L4", 6), ("L8", 3)):
+    rules_location.check_walk_scenarios(chk, ix, "L10")
+    rules_rerun.check_outfile_mode(chk, ix)
+    for r, n in (("Q1", 6), ("Q3", 8), ("Q4", 6), ("Q5", 3), ("L4", 6), ("L8", 3), ("L10", 3), ("Q6", 1)):
         chk.require_instances(r, n)
